@@ -1,6 +1,7 @@
 import Rie.Proofs.Sys
 import Rie.Props.C05
 import Rie.Proofs.SysProcs
+import Rie.Proofs.SysSched
 
 /-!
 # C07 — No client behaviour can wedge or crash the emulator
@@ -108,5 +109,13 @@ example :
     let s := [Op.invoke 0 5 "h", .rtResponse none 1 "x" false, .rtInitError "x", .rtNext, .rtInitError "late",
               .rtResponse (some 7) 1 "x" false, .rtRaw "GET" "/nope", .exit "runtime" "code1" false].foldl (step 0) ({} : State)
     s.crashed = false := by decide
+
+/-- **The scheduler parameter is complete.** The whole-run theorems (here and in C01, C03, C06, C10, C13, C15)
+    quantify over a scheduler choice `v` per op; `v` spells one choice *per internal move*, and every list of
+    per-move choices is spelt by some `v` — so "for all `v`" is "for every order in which the platform threads,
+    the signalled handlers, the woken handlers and the Kill goroutines take their turns", not a set of fixed
+    priorities (`Rie/Proofs/SysSched.lean`). -/
+theorem C07_every_schedule_covered (ds : List Nat) (s : State) : ∃ v, settle v ds.length s = follow ds s :=
+  every_schedule_is_a_v ds s
 
 end Rie.Props.C07
